@@ -11,6 +11,9 @@ under the harness' controlled schedules must be accepted by `validTrace`, and `v
 accepted sequences are traces of the transition system the theorems are about.
 -/
 import BtcVerif.Proofs.StreamOrdered
+import BtcVerif.Proofs.StreamUnordered
+import BtcVerif.Proofs.StreamVariant
+import BtcVerif.Proofs.StreamComplete
 
 namespace BtcVerif.Props.C16
 open BtcVerif.Model.Stream
@@ -40,6 +43,15 @@ theorem no_false_success {P : Params} (hP : P.lo ≤ P.hi) (hm : P.mode = .order
     s.delivered = fullRange P :=
   no_false_success_ordered_thm hP hm hr he hc herr
 
+/-- Unordered streaming never delivers a height twice and never a height outside the range; and an
+end-of-stream signal preceded neither by a cancel nor by an error means that the delivered heights are a
+permutation of `[lo..hi]` (for parallelism ≥ 1). -/
+theorem unordered_exactly_once {P : Params} (hP : P.lo ≤ P.hi) (hm : P.mode = .unordered) {s : State}
+    (hr : Reachable P s) :
+    (s.delivered.Nodup ∧ ∀ h ∈ s.delivered, P.lo ≤ h ∧ h ≤ P.hi) ∧
+    (0 < P.p → s.ended = true → s.cancel0 = false → s.errs = 0 → s.delivered.Perm (fullRange P)) :=
+  ⟨unordered_exactly_once_thm hP hm hr, fun hp he hc herr => unordered_complete_thm hP hm hp hr he hc herr⟩
+
 /-- `UpdateUtxos` returns nil only after every block of the range was applied, in order — whatever faults
 and cancellations happened. -/
 theorem utxo_no_false_success {P : Params} (hP : P.lo ≤ P.hi) (hm : P.mode = .utxo) {s : State}
@@ -67,8 +79,84 @@ theorem utxo_scan_eq_sequential {S B : Type} (applyBlock : S → B → S) (chain
   · rw [← (ordered_prefix_thm hP (by simp [hm]) hr).1]
   · intro h; rw [utxo_success_complete_thm hP hm hr h]
 
-/-- the hypotheses are satisfiable and the model is not vacuous: a complete fault-free run of three blocks
-with two workers is accepted, a run that skips a block or swallows an error is not -/
-example : (⟨.ordered, 100, 102, 2⟩ : Params).lo ≤ (⟨.ordered, 100, 102, 2⟩ : Params).hi := by decide
+/-- The consumer is never blocked for ever (1/2): in every reachable state in which the consumer has not
+finished — it is inside `next()`, or inside `UpdateUtxos` — some component can move, and not merely the
+environment's cancel: there is no deadlock, for any range, parallelism, fault placement or cancellation.
+(RPC completions count as steps: the node is assumed to answer every request, with an error if need be;
+the choice among ready `select` cases is assumed fair — the residue named in DESIGN.md.) -/
+theorem consumer_progress {P : Params} (hP : P.lo ≤ P.hi) {s : State} (hr : Reachable P s)
+    (hc : s.cph ≠ .finished) : ∃ l s', Step P s l s' ∧ l ≠ some .cancel :=
+  consumer_progress_thm hP hr hc
+
+/-- The consumer is never blocked for ever (2/2), termination: `variant` strictly decreases with every step
+of every component, so no run from a reachable state is longer than the variant of that state.  With
+`consumer_progress`: every maximal run is finite and ends with the consumer finished. -/
+theorem variant_decreases {P : Params} (hP : P.lo ≤ P.hi) {s : State} {l : Label} {s' : State}
+    (hr : Reachable P s) (hst : Step P s l s') : variant P s' < variant P s :=
+  BtcVerif.Model.Stream.variant_decreases hP hr hst
+
+theorem runs_are_finite {P : Params} (hP : P.lo ≤ P.hi) {s t : State} {n : Nat} (hr : Reachable P s)
+    (h : Run P s n t) : n + variant P t ≤ variant P s :=
+  run_bounded hP hr h
+
+/-- Ordered streaming is complete: a state reached WITHOUT any fault (no failing RPC, no non-linking block)
+and without a cancel (`ReachableNF`), in which nothing but a cancel can happen any more (the end of a maximal
+run), has delivered exactly `[lo..hi]` in ascending order, has returned no error, and has signalled the end of
+the stream — for every range, every parallelism `p ≥ 1` and every interleaving.  (For `p = 0` the Go code
+starts no worker and reports a broken link; the property quantifies over `p ≥ 1`.)  The core is
+`no_spurious_link_error`: in such a run the re-orderer never observes the closed worker queues while a block
+is still missing, because every height of `(cur, hi]` is not yet handed over, buffered, or being sent. -/
+theorem ordered_complete {P : Params} (hP : P.lo ≤ P.hi) (hm : P.mode = .ordered) (hp : 0 < P.p) {s : State}
+    (hr : ReachableNF P s) (hterm : ∀ l s', Step P s l s' → l = some .cancel) :
+    s.delivered = fullRange P ∧ s.ended = true ∧ s.errs = 0 :=
+  ordered_complete_thm hP hm hp hr hterm
+
+/-- Complete or error: a maximal run of ordered streaming (with any faults) that saw no cancel and in which
+`next()` returned no error has delivered exactly `[lo..hi]` and signalled the end. -/
+theorem ordered_complete_or_error {P : Params} (hP : P.lo ≤ P.hi) (hm : P.mode = .ordered) {s : State}
+    (hr : Reachable P s) (hterm : ∀ l s', Step P s l s' → l = some .cancel)
+    (hc : s.cancel0 = false) (herr : s.errs = 0) :
+    s.delivered = fullRange P ∧ s.ended = true := by
+  have hfin : s.cph = .finished := by
+    by_cases h : s.cph = .finished
+    · exact h
+    · obtain ⟨l, s', hst, hl⟩ := consumer_progress_thm hP hr h
+      exact absurd (hterm l s' hst) hl
+  have he : s.ended = true := (reachable_inv5 hP hr).fe (by simp [hm]) hfin
+  exact ⟨no_false_success_ordered_thm hP hm hr he hc herr, he⟩
+
+/-! ### non-vacuity: the hypotheses are satisfiable, the model runs, the validator discriminates -/
+
+example : (⟨.ordered, 100, 101, 2⟩ : Params).lo ≤ (⟨.ordered, 100, 101, 2⟩ : Params).hi := by decide
+example : (⟨.utxo, 7, 7, 3⟩ : Params).lo ≤ (⟨.utxo, 7, 7, 3⟩ : Params).hi := by decide   -- single-block range
+example (P : Params) : Reachable P (init P) := .init
+
+/-- a complete fault-free ordered run of two blocks with two workers is a trace of the model … -/
+example : validTrace ⟨.ordered, 100, 101, 2⟩
+    [.req 100 .hash, .rsp 100 .hash .ok, .req 100 .block, .rsp 100 .block .ok, .deliver 100,
+     .req 101 .hash, .rsp 101 .hash .ok, .req 101 .block, .rsp 101 .block .ok, .deliver 101, .endOfStream] = true := by
+  decide +kernel
+
+/-- … a run that signals the end after the first of two blocks is not … -/
+example : validTrace ⟨.ordered, 100, 101, 2⟩
+    [.req 100 .hash, .rsp 100 .hash .ok, .req 100 .block, .rsp 100 .block .ok, .deliver 100, .endOfStream] = false := by
+  decide +kernel
+
+/-- … nor is a run that swallows an RPC failure; with the error returned first it is. -/
+example : validTrace ⟨.ordered, 100, 101, 2⟩ [.req 100 .hash, .rsp 100 .hash .err, .endOfStream] = false := by
+  decide +kernel
+example : validTrace ⟨.ordered, 100, 101, 2⟩ [.req 100 .hash, .rsp 100 .hash .err, .error, .endOfStream] = true := by
+  decide +kernel
+
+/-- a single-block scan (D17) and a cancelled scan (D18) return as the repaired code does -/
+example : validTrace ⟨.utxo, 7, 7, 3⟩
+    [.req 7 .hash, .rsp 7 .hash .ok, .req 7 .block, .rsp 7 .block .ok, .deliver 7, .utxoReturn true] = true := by
+  decide +kernel
+example : validTrace ⟨.utxo, 7, 8, 1⟩
+    [.req 7 .hash, .rsp 7 .hash .ok, .req 7 .block, .rsp 7 .block .ok, .deliver 7, .cancel, .utxoReturn false] = true := by
+  decide +kernel
+example : validTrace ⟨.utxo, 7, 8, 1⟩
+    [.req 7 .hash, .rsp 7 .hash .ok, .req 7 .block, .rsp 7 .block .ok, .deliver 7, .cancel, .utxoReturn true] = false := by
+  decide +kernel
 
 end BtcVerif.Props.C16
